@@ -183,8 +183,7 @@ func (matrix *SparseFloat32Matrix) SLICE(rfrom, rto, cfrom, cto int) *SparseFloa
   return &m
 }
 func (matrix *SparseFloat32Matrix) AsSparseFloat32Vector() *SparseFloat32Vector {
-  if matrix.cols < matrix.colMax - matrix.colOffset ||
-    (matrix.rows < matrix.rowMax - matrix.rowOffset) {
+  if matrix.rows != matrix.rowMax || matrix.cols != matrix.colMax {
     n, m := matrix.Dims()
     v := nilSparseFloat32Vector(n*m)
     for it := matrix.ConstIterator(); it.Ok(); it.Next() {
